@@ -16,10 +16,10 @@ _own_c = dict(_own, FLAVOUR="consecutive", OpSet={"batch", "transfer", "burn"}, 
               NS={1, 2, 3, 5}, TIds=set(range(10)))
 # authorization configurations: tokens pre-minted (0 -> a, 1 -> b; consecutive: 0,1 -> a, 2 -> b),
 # every caller x {principal authorizes, everybody else authorizes}, ledger around the expiry
-_auth = dict(_c, Acct=ABC, AuthMode="all", RcSet={"c"}, ToSet={"b", "c"}, FromSet=AB, PreMode="two",
+_auth = dict(_c, Acct=ABC, AuthMode="all", RcSet={"c"}, ToSet={"c"}, FromSet=AB, PreMode="two",
              OpSet={"approve", "approve_for_all", "transfer_from", "burn_from", "transfer", "burn"},
              MaxId=2, XIds=set(), NS={1}, TIds={0}, DUs={0, 1}, DTs={0, 1})
-_auth_t = dict(DUs={-1, 0, 1, 5999999, 6000000})
+_auth_t = dict(DUs={-1, 0, 1, 5999999, 6000000}, ToSet={"b", "c"})
 _inv = ["NoViolation", "Refines"]
 
 
@@ -111,8 +111,8 @@ MODEL = dict(
         _mc("own_base", dict(_own_be, FLAVOUR="base", Depth=5), dict(Depth=6)),
         _mc("own_enum", dict(_own_be, FLAVOUR="enumerable", Depth=5), dict(Depth=6)),
         _mc("own_cons", dict(_own_c, Depth=4), dict(Depth=5)),
-        _mc("auth_base", dict(_auth, FLAVOUR="base", Depth=3), dict(Depth=4)),
-        _mc("auth_enum", dict(_auth, FLAVOUR="enumerable", Depth=2), dict(Depth=3)),
+        _mc("auth_base", dict(_auth, FLAVOUR="base", Depth=3), dict(Depth=4, ToSet={"b", "c"})),
+        _mc("auth_enum", dict(_auth, FLAVOUR="enumerable", Depth=2), dict(Depth=3, ToSet={"b", "c"})),
         _mc("auth_cons", dict(_auth, FLAVOUR="consecutive", Depth=3), dict(_auth_t, Depth=3)),
         # vacuity guards: re-introduced bugs must make the monitors fail
         _mc("nonvacuous_cons", dict(_own_c, Depth=3, BUG="no_prev_marker"), emit=False,
